@@ -828,7 +828,11 @@ func runC18(c *gen.Ctx) error {
 	// ---- the malformed stream of the strict codecs (c18bad.go)
 	c18BadGen(c)
 	// ---- strict codecs over sequences of calls (c18seq.go)
-	return c18SeqGen(c)
+	if err := c18SeqGen(c); err != nil {
+		return err
+	}
+	// ---- strict codecs over the history of one message object (c18hist.go)
+	return c18HistGen(c)
 }
 
 // runC18Facts writes ConfModel/Generated/C18Facts.lean from the tree.
